@@ -228,8 +228,20 @@ def run(ctx, rep):
     # a year's totals are final only if membership of a disposal in a tax year depends on its own date alone and the
     # boundary is exact (shared with C07-R1): a year filter that also admits 6 April of the next year lets a later
     # transaction change an earlier year's figures
-    import rules.c07 as c07
+    # lines of one date keep their file order (the canonical sort is STABLE): with an unstable sort the arrangement of an earlier
+    # day's lines depends on the length of the whole list, so appending later lines reshuffles earlier days and, through the
+    # adjacent-merge and first-come matching, changes earlier years' legs (shared with C06-R2; seeded change C12-s7)
+    import rules.c06 as c06
     from core import Report
+    r6 = Report("tmp")
+    c06.canon(R, r6)
+    for o in r6.obligations:
+        if o["instance"] == "canon:stable-ascending":
+            rep.ob("R4", o["instance"], o["ok"], o["detail"], o["site"], key="R4:" + o["instance"])
+    for v in r6.violations:
+        if v["instance"].startswith("role:"):
+            rep.ob("R4", v["instance"], False, v["detail"], v["site"], key="R4:" + v["instance"])
+    import rules.c07 as c07
     r2 = Report("tmp")
     c07.year_sites(ctx.F, r2)
     for o in r2.obligations:
